@@ -125,9 +125,9 @@ fn gen_groups(seed: u64) -> Vec<Vec<OpSpec>> {
                 Kind::Update { target: free_targets.remove(rng.gen_range(0..free_targets.len())) }
             } else if r < 65 && !free_targets.is_empty() {
                 Kind::Delete { target: free_targets.remove(rng.gen_range(0..free_targets.len())) }
-            } else if r < 82 {
+            } else if r < 78 {
                 Kind::Sync { rows: rng.gen_range(1..=4) }
-            } else if r < 92 && !room_edit_used {
+            } else if r < 96 && !room_edit_used {
                 room_edit_used = true;
                 Kind::RoomEdit
             } else {
